@@ -259,7 +259,47 @@ func perturb(r *hx.Rng, m matDesc, d *sceneDesc) matDesc {
 		}
 		return r.Intn(len(d.Textures))
 	}
-	switch r.Intn(12) {
+	// a texture slot of the copy refers to a texture that differs from the original's only in the extension
+	// list / the extension value / the sampler name (fix 31c30a5: PolyformTexture.equal)
+	texVariant := func(cur int) int {
+		if cur < 0 {
+			return cur
+		}
+		t := d.Textures[cur]
+		switch r.Intn(4) {
+		case 0:
+			t.Transform = (t.Transform + 1 + r.Intn(2)) % 3
+		case 1:
+			t.ExtShared = !t.ExtShared
+			if t.Transform == 0 {
+				t.Transform = 1
+			}
+		case 2:
+			if t.Sampler >= 0 {
+				sm := d.Samplers[t.Sampler]
+				sm.Name += "'"
+				d.Samplers = append(d.Samplers, sm)
+				t.Sampler = len(d.Samplers) - 1
+			} else {
+				t.Transform = 1 - min(t.Transform, 1)
+			}
+		default: // same everything under another pointer: still equal
+		}
+		d.Textures = append(d.Textures, t)
+		return len(d.Textures) - 1
+	}
+	switch r.Intn(15) {
+	case 12:
+		if m.Pbr {
+			m.BaseTex = texVariant(m.BaseTex)
+		}
+	case 13:
+		m.NormalTex = texVariant(m.NormalTex)
+	case 14:
+		if m.Pbr {
+			m.MRTex = texVariant(m.MRTex)
+		}
+		m.OccTex = texVariant(m.OccTex)
 	case 0, 1, 2: // exact duplicate under a different pointer
 	case 3:
 		m.Name = hx.Pick(r, names)
@@ -314,6 +354,7 @@ func genScene(r *hx.Rng, big bool) sceneDesc {
 		}
 		if r.Chance(1, 4) {
 			t.Transform = r.Range(1, 2)
+			t.ExtShared = r.Chance(1, 2)
 		}
 		d.Textures = append(d.Textures, t)
 	}
